@@ -46,10 +46,11 @@ type c20Scen struct {
 	MaxQueued int         `json:"max_queued"`
 	Clients   []c20Client `json:"clients"`
 	Ops       []c20Op     `json:"ops"`
+	Redis     bool        `json:"redis,omitempty"` // persistence on the redis backend (harness RESP server)
 }
 
 func genC20(t *rapid.T) c20Scen {
-	s := c20Scen{MaxQueued: rapid.SampledFrom([]int{3, 1000}).Draw(t, "maxq")}
+	s := c20Scen{MaxQueued: rapid.SampledFrom([]int{3, 1000}).Draw(t, "maxq"), Redis: rapid.IntRange(0, 3).Draw(t, "backend") == 0}
 	for i := 0; i < 3; i++ {
 		c := c20Client{V: rapid.SampledFrom([]int{4, 5}).Draw(t, "v"), Persistent: rapid.IntRange(0, 2).Draw(t, "pers") != 0}
 		if c.V == 5 && rapid.IntRange(0, 2).Draw(t, "mp") == 0 {
@@ -232,6 +233,15 @@ func runC20(s c20Scen, c *ev.Case) *ev.Violation {
 		drops[dropKey{clientID, msg.QoS, reason}]++
 		mu.Unlock()
 	}}
+	if s.Redis {
+		rs, cleanup, e := fixture.StartRedis()
+		if e != nil {
+			return harnessErr("miniredis: %v", e)
+		}
+		defer cleanup()
+		cfg = fixture.WithRedis(cfg, rs.Addr())
+		c.Label("backend_redis")
+	}
 	b, err := fixture.Start(fixture.Opts{Config: cfg, Hooks: hooks})
 	if err != nil {
 		return harnessErr("start broker: %v", err)
